@@ -216,8 +216,12 @@ class Builder:
             st.push(sub.obj)
             r.regs.append(("push_cm", sub))
         elif kind == "push_fn":
-            st.push(exit_fn)
-            r.regs.append((kind, exit_fn))
+            # push(callable that is not a manager): a Python function, a builtin function (its __self__ is a module), a
+            # bound method of a builtin object (its __self__ is that object, but it is no __exit__), a partial
+            self.npf = getattr(self, "npf", 0) + 1
+            fn = [exit_fn, print, "fmt{}".format, functools.partial(exit_fn, 0)][self.npf % 4]
+            st.push(fn)
+            r.regs.append((kind, fn))
         elif kind == "push_method":
             p = Plain("m")
             st.push(p.exitish)
@@ -383,7 +387,8 @@ def check_stack_children(ctx, regs, path, bad, stats):
                                   children=k.children)
                 check_ctx(sub_ctx, payload, p, bad, stats)
         elif kind in ("push_fn", "push_async_exit_fn"):
-            if k.obj is not payload:
+            owner = getattr(payload, "__self__", None)
+            if k.obj is not payload and not (owner is not None and not isinstance(owner, types.ModuleType) and k.obj is owner):
                 bad.append({"kind": "exit_stack_child_obj", "path": p, "got": repr(k.obj)[:60]})
         elif kind in ("push_method", "push_async_exit_method"):
             if k.obj is not payload:
